@@ -5,7 +5,8 @@
 Core Lean only (no Mathlib): this file is compiled into the correspondence driver.
 
 Model ids are natural numbers: the model handed to the `n`-th call of `stop`.  `none` for the
-best loss stands for the code's initial `jnp.inf`.  NaN is excluded.
+best loss stands for the code's initial `jnp.inf`; this `Option`-shaped machine is over ordinary numbers.
+NaN and the infinities are covered by the float-shaped machine (`FV`, `pStepF`) at the end of the file.
 -/
 namespace GinjaxVerif.C19
 
@@ -148,5 +149,166 @@ def eLoop (epochs : Nat) : Nat → Nat → Option (Nat × Option Nat)
   | fuel + 1, epoch =>
     let (bm, stop) := eStep epochs epoch epoch
     if stop then some (epoch, bm) else eLoop epochs fuel (epoch + 1)
+
+/-! ### Non-finite losses: the FLOAT-SHAPED machine.
+
+The code keeps `best_*_loss` as a float initialised to `jnp.inf` and tests
+`loss < best - min_delta` in IEEE arithmetic.  `FV Q` is an IEEE-like value type over an exact
+carrier `Q` (no rounding, no overflow): NaN, the two infinities and the finite values.  The
+machine below is the code as it stands, over `FV Q`; `Properties/C19NaN.lean` proves that on
+finite losses it is the `Option`-shaped machine above (`none` ↔ `pinf`, `some b` ↔ `fin b`), and
+characterises it on histories that contain NaN / +inf. -/
+
+/-- IEEE-like values over an exact carrier. -/
+inductive FV (Q : Type) where
+  | nan | ninf | pinf | fin (q : Q)
+  deriving Repr
+
+/-- IEEE `<`: every comparison involving NaN is false; `-inf < finite < +inf`, `-inf < +inf`;
+no infinity is below itself. -/
+def FV.lt {Q} [LT Q] : FV Q → FV Q → Prop
+  | .fin x, .fin y => x < y
+  | .fin _, .pinf => True
+  | .ninf, .fin _ => True
+  | .ninf, .pinf => True
+  | _, _ => False
+
+instance {Q} [LT Q] : LT (FV Q) := ⟨FV.lt⟩
+
+instance {Q} [LT Q] [DecidableLT Q] : DecidableLT (FV Q) := fun a b =>
+  match a, b with
+  | .fin x, .fin y => inferInstanceAs (Decidable (x < y))
+  | .fin _, .pinf => isTrue trivial
+  | .ninf, .fin _ => isTrue trivial
+  | .ninf, .pinf => isTrue trivial
+  | .nan, _ => isFalse (fun h => by cases h)
+  | .pinf, _ => isFalse (fun h => by cases h)
+  | .ninf, .nan => isFalse (fun h => by cases h)
+  | .ninf, .ninf => isFalse (fun h => by cases h)
+  | .fin _, .nan => isFalse (fun h => by cases h)
+  | .fin _, .ninf => isFalse (fun h => by cases h)
+
+/-- IEEE `-` (exact on finite values): NaN propagates; `inf - inf` of equal sign is NaN
+(`pinf - pinf`, `ninf - ninf`); otherwise an infinite left operand wins (`pinf - y = pinf`,
+`ninf - y = ninf`); `fin - pinf = ninf`, `fin - ninf = pinf`; `fin x - fin y = fin (x - y)`. -/
+def FV.sub {Q} [Sub Q] : FV Q → FV Q → FV Q
+  | .nan, _ => .nan
+  | .pinf, .nan => .nan
+  | .pinf, .pinf => .nan
+  | .pinf, .ninf => .pinf
+  | .pinf, .fin _ => .pinf
+  | .ninf, .nan => .nan
+  | .ninf, .ninf => .nan
+  | .ninf, .pinf => .ninf
+  | .ninf, .fin _ => .ninf
+  | .fin _, .nan => .nan
+  | .fin _, .pinf => .ninf
+  | .fin _, .ninf => .pinf
+  | .fin x, .fin y => .fin (x - y)
+
+instance {Q} [Sub Q] : Sub (FV Q) := ⟨FV.sub⟩
+
+def FV.isNan {Q} : FV Q → Bool
+  | .nan => true
+  | _ => false
+
+/-- IEEE `x >= y` on a totally ordered carrier: both operands ordered (not NaN) and not `x < y`. -/
+def FV.geB {Q} [LT Q] [DecidableLT Q] (x y : FV Q) : Bool :=
+  !x.isNan && !y.isNan && !decide (x < y)
+
+/-- State of `TrainLoss` / `ValLoss` as the code holds it: `best_*_loss` is a float. -/
+structure FState (Q : Type) where
+  best : FV Q
+  since : Nat
+  bestModel : Option Nat
+  deriving Repr
+
+/-- `self.best_*_loss = jnp.inf`, `self.epochs_since_best = 0`. -/
+def FState.init {Q} (m0 : Option Nat) : FState Q := { best := .pinf, since := 0, bestModel := m0 }
+
+/-- One call of `TrainLoss.stop` / `ValLoss.stop` exactly as written:
+`if loss < self.best - self.min_delta: new best … else: counter += 1`, all in float arithmetic. -/
+def pStepF {Q} [LT Q] [DecidableLT Q] [Sub Q] (patience : Nat) (delta : FV Q)
+    (s : FState Q) (model : Nat) : Option (FV Q) → FState Q × Bool
+  | none => (s, false)
+  | some x =>
+    if x < s.best - delta then
+      ({ best := x, since := 0, bestModel := some model }, decide (0 > patience))
+    else
+      ({ s with since := s.since + 1 }, decide (s.since + 1 > patience))
+
+def pRunF {Q} [LT Q] [DecidableLT Q] [Sub Q] (patience : Nat) (delta : FV Q) :
+    FState Q → Nat → List (Option (FV Q)) → FState Q × List Bool
+  | s, _, [] => (s, [])
+  | s, m, l :: ls =>
+    let (s', b) := pStepF patience delta s m l
+    let (s'', bs) := pRunF patience delta s' (m + 1) ls
+    (s'', b :: bs)
+
+/-- `pLoop` for the float-shaped machine. -/
+def pLoopF {Q} [LT Q] [DecidableLT Q] [Sub Q] (patience : Nat) (delta : FV Q) (loss : Nat → FV Q) :
+    Nat → FState Q → Nat → Option (Nat × Option Nat)
+  | 0, _, _ => none
+  | fuel + 1, s, epoch =>
+    let arg : Option (FV Q) := if epoch = 0 then none else some (loss (epoch - 1))
+    let (s', stop) := pStepF patience delta s epoch arg
+    if stop then some (epoch, s'.bestModel) else pLoopF patience delta loss fuel s' (epoch + 1)
+
+def trainLoopF {Q} [LT Q] [DecidableLT Q] [Sub Q] (patience : Nat) (delta : FV Q)
+    (loss : Nat → FV Q) (fuel : Nat) : Option (Nat × Option Nat) :=
+  pLoopF patience delta loss fuel (FState.init (some 0)) 0
+
+/-! #### Spec on a history with non-finite entries (newest first): a NaN or +inf loss never
+improves; it is skipped for "best" and counted for "trailing". -/
+
+/-- the finite losses of a history, in the same order -/
+def finPart {Q} : List (FV Q) → List Q
+  | [] => []
+  | .fin q :: past => q :: finPart past
+  | _ :: past => finPart past
+
+/-- does the newest loss `x` improve on the best FINITE loss tracked over `past`? -/
+def improvesF {Q} [LT Q] [DecidableLT Q] [Sub Q] (delta : Q) (x : FV Q) (past : List (FV Q)) : Bool :=
+  match x with
+  | .fin q => improves delta q (bestOf delta (finPart past))
+  | _ => false
+
+/-- tracked best: the tracked best of the finite sub-history -/
+def bestOfF {Q} [LT Q] [DecidableLT Q] [Sub Q] (delta : Q) (h : List (FV Q)) : Option Q :=
+  bestOf delta (finPart h)
+
+/-- consecutive non-improving epochs at the end, non-finite epochs counted -/
+def trailingF {Q} [LT Q] [DecidableLT Q] [Sub Q] (delta : Q) : List (FV Q) → Nat
+  | [] => 0
+  | x :: past => if improvesF delta x past then 0 else trailingF delta past + 1
+
+/-- 1-based epoch (position in the FULL history) of the last improvement, 0 = none yet -/
+def argBestF {Q} [LT Q] [DecidableLT Q] [Sub Q] (delta : Q) : List (FV Q) → Nat
+  | [] => 0
+  | x :: past => if improvesF delta x past then past.length + 1 else argBestF delta past
+
+/-! #### The contrast: the test restructured as `if loss >= best - min_delta: counter += 1 …
+else: new best`.  Same on ordered values; a NaN loss fails `>=` and is taken for an improvement. -/
+
+def pStepGe {Q} [LT Q] [DecidableLT Q] [Sub Q] (patience : Nat) (delta : FV Q)
+    (s : FState Q) (model : Nat) : Option (FV Q) → FState Q × Bool
+  | none => (s, false)
+  | some x =>
+    if FV.geB x (s.best - delta) then
+      ({ s with since := s.since + 1 }, decide (s.since + 1 > patience))
+    else
+      ({ best := x, since := 0, bestModel := some model }, decide (0 > patience))
+
+def pLoopGe {Q} [LT Q] [DecidableLT Q] [Sub Q] (patience : Nat) (delta : FV Q) (loss : Nat → FV Q) :
+    Nat → FState Q → Nat → Option (Nat × Option Nat)
+  | 0, _, _ => none
+  | fuel + 1, s, epoch =>
+    let arg : Option (FV Q) := if epoch = 0 then none else some (loss (epoch - 1))
+    let (s', stop) := pStepGe patience delta s epoch arg
+    if stop then some (epoch, s'.bestModel) else pLoopGe patience delta loss fuel s' (epoch + 1)
+
+def trainLoopGe {Q} [LT Q] [DecidableLT Q] [Sub Q] (patience : Nat) (delta : FV Q)
+    (loss : Nat → FV Q) (fuel : Nat) : Option (Nat × Option Nat) :=
+  pLoopGe patience delta loss fuel (FState.init (some 0)) 0
 
 end GinjaxVerif.C19
